@@ -437,7 +437,7 @@ func (f *file) ReadDir(n int) ([]hackpadfs.DirEntry, error) {
 	if err != nil {
 		return nil, &hackpadfs.PathError{Op: "readdir", Path: f.path, Err: err}
 	}
-	start, end := f.offset, f.offset+int64(n)
+	start, end := f.offset, int64(len(dirNames))
 	if n <= 0 {
 		// all entries that remain after the ones already returned, like os.File
 		if start > int64(len(dirNames)) {
@@ -449,8 +449,9 @@ func (f *file) ReadDir(n int) ([]hackpadfs.DirEntry, error) {
 			// no entries remain
 			return nil, io.EOF
 		}
-		if end > int64(len(dirNames)) {
-			end = int64(len(dirNames))
+		if int64(n) < end-start {
+			// (not start+n > len: the sum overflows for a huge n)
+			end = start + int64(n)
 		}
 	}
 	offsetAdd := end - start
